@@ -1,6 +1,8 @@
 CONSTANTS
   CycleLen = 4
   ChainOver = 2
+  SizeExpLo = 4
+  SizeExpHi = 10
 SPECIFICATION Spec
-INVARIANTS Bounded Outcome Emit
+INVARIANTS Bounded Outcome CntOK Emit
 CHECK_DEADLOCK FALSE
